@@ -28,6 +28,11 @@ fn run_stream(input: &Value, salt: u64) -> Value {
             Some(x) => x,
             None => return json!({"bad_conf": cfg["conf"]}),
         };
+        // the length of a tick is the specification's (TickMs); 10 s unless
+        // the case says otherwise
+        if let Some(t) = cfg.get("tickms").and_then(|t| t.as_u64()) {
+            s.tick = std::time::Duration::from_millis(t);
+        }
         s.settle().await;
         let mut obs: Vec<Value> = vec![];
         for (i, op) in ops.iter().enumerate() {
@@ -164,7 +169,8 @@ fn try_dgram(input: &Value) -> Option<Value> {
             if t_done < 0 && !done.is_empty() {
                 t_done = (clock.ticks() - t_submit) as i64;
             }
-            let mut p = json!({"sent": sent, "done": done, "waiting": waiting, "t": t_done, "eff": eff});
+            let mut p = json!({"sent": sent, "done": done, "waiting": waiting, "t": t_done, "eff": eff,
+                               "rbuf": net.rbuf()});
             if hang {
                 p["hang"] = json!(true);
             }
@@ -190,6 +196,63 @@ fn run_dgram(input: &Value) -> Value {
     json!({"id_collision_every_time": true})
 }
 
+
+/// dgram with many requests at once (ClientDgramPar.tla): bursts of requests
+/// that are never answered; observed: sockets opened, sockets open now,
+/// requests completed.
+fn run_dgpar(input: &Value) -> Value {
+    use domain::net::client::request::SendRequest;
+    use std::sync::{Arc, Mutex};
+    let cfg = &input["cfg"];
+    let ops = input["ops"].as_array().cloned().unwrap_or_default();
+    let tick = std::time::Duration::from_millis(cfg.get("tickms").and_then(|t| t.as_u64()).unwrap_or(10_000));
+    let rt = runtime();
+    rt.block_on(async move {
+        let act = Activity::default();
+        let net = DgramNet::new(&act);
+        let (conn, eff) = match dgram_conn(&net, &cfg["conf"]) {
+            Some(x) => x,
+            None => return json!({"bad_conf": cfg["conf"]}),
+        };
+        let comp: Completions = Arc::new(Mutex::new(vec![]));
+        let mut clock = Clock::new();
+        let mut hang = false;
+        let mut next_r = 0u64;
+        let mut obs = vec![];
+        for op in ops.iter() {
+            match op["op"].as_str().unwrap_or("") {
+                "burst" => {
+                    for _ in 0..num(op, "n") {
+                        next_r += 1;
+                        let req = SendRequest::send_request(&conn, build_request(1 + next_r % 50));
+                        spawn_waiter(req, next_r, &comp, &act);
+                    }
+                }
+                "tick" => clock.advance(tick).await,
+                _ => return json!({"bad_op": op}),
+            }
+            if !hang && !settle(&act).await {
+                hang = true;
+            }
+            let (ndone, nok) = {
+                let g = comp.lock().unwrap();
+                (g.len(), g.iter().filter(|(_, o, _)| o.get("ok").is_some()).count())
+            };
+            let mut p = json!({"nsock": net.nsocks(), "open": net.nopen(), "ndone": ndone, "eff": eff});
+            if nok > 0 {
+                p["answered"] = json!(nok); // nothing was ever delivered
+            }
+            if hang {
+                p["hang"] = json!(true);
+            }
+            if !clock.in_step() {
+                p["clock_drift"] = json!(true);
+            }
+            obs.push(p);
+        }
+        Value::Array(obs)
+    })
+}
 
 /// multi_stream over a mock connector.  One tick = 100 s, longer than any
 /// back-off of multi_stream (at most 60 s), so a Delay ends with the next tick.
@@ -471,6 +534,7 @@ fn main() {
         match input["kind"].as_str() {
             Some("stream") => run_stream(input, n),
             Some("dgram") => run_dgram(input),
+            Some("dgpar") => run_dgpar(input),
             Some("multi") => run_multi(input),
             Some("dgst") => run_dgst(input),
             Some("config") => run_config(input),
